@@ -226,13 +226,13 @@ func writeEvidence(verifDir string, r *runResult, w *World) error {
 	}
 	if w != nil {
 		cov["analysed"] = map[string]any{
-			"packages":           w.NPkgs,
-			"root_functions":     len(w.Funcs),
-			"all_functions":      w.NAllFn,
-			"callgraph_edges":    w.NEdges,
-			"lockset_rounds":     w.Locks().Rounds,
-			"go_toolchain":       "go1.26.8",
-			"x_tools":            "v0.50.0",
+			"packages":        w.NPkgs,
+			"root_functions":  len(w.Funcs),
+			"all_functions":   w.NAllFn,
+			"callgraph_edges": w.NEdges,
+			"lockset_rounds":  w.Locks().Rounds,
+			"go_toolchain":    "go1.26.8",
+			"x_tools":         "v0.50.0",
 		}
 	}
 	if r.Selftest != nil {
